@@ -90,7 +90,12 @@ def run(F, R):
         v = terms.render(aqp, vt_, W, names, transparent=T)
         pq = "into_parts(self).path_and_query@Some.0"
         exp = "Some{parse::<http::uri::PathAndQuery>(phi(fmt('?{0}={1}', display(key), display(value))|fmt('{0}?{1}&{2}={3}', display(path(%s)), display(query(%s)@Some.0), display(key), display(value))|fmt('{0}?{1}={2}', display(path(%s)), display(key), display(value))))@Continue.0}" % (pq, pq, pq)
-        R.check("C03-R2", "composition", v == exp, v[:200], "new path_and_query is %s, expected %s" % (v, exp))
+        readable = "fmt(" in v and not any(w_ in v for w_ in ("push_str(", "push(", "concat(", "to_string(", "String::from", "insert_str(", "extend("))
+        if not readable:
+            # assembled by in-place string edits (push/push_str/concat): the term model has no value for a mutated String
+            R.inconclusive("C03-R2", "composition", "the new path-and-query is not a format!() of its parts (%s): in-place string building is not read by this rule" % v[:120])
+        else:
+            R.check("C03-R2", "composition", v == exp or _phi_set(v) == _phi_set(exp), v[:200], "new path_and_query is %s, expected %s" % (v, exp))
         from .. import optnorm as _on2
         ret = _on2.canon(terms.render(aqp, _on2.inline_all(W, aqp, aqp.trace_local(0)), W, names, transparent=T)).replace("@OK", "@Continue.0")
         R.check("C03-R2", "reassembled", "Ok{from_parts(into_parts(self))@Continue.0}" in ret or ret.endswith("from_parts(into_parts(self)))") or "map_err(from_parts(into_parts(self))" in ret, "Uri::from_parts(the same parts)", "result is %s" % ret[:160])
@@ -101,7 +106,8 @@ def run(F, R):
             si = guards.switch_info(aqp, b)
             if si.ty.get("d") == "std::option::Option":
                 conds.append(terms.render(aqp, si.term, W, names, transparent=T))
-        R.check("C03-R2", "cases", sorted(conds)[:2] == sorted(["into_parts(self).path_and_query", "query(%s)" % pq]), str(conds[:3]), "format chosen by %s" % conds)
+        if readable:
+            R.check("C03-R2", "cases", sorted(conds)[:2] == sorted(["into_parts(self).path_and_query", "query(%s)" % pq]), str(conds[:3]), "format chosen by %s" % conds)
 
     # ---------------------------------------------------------------- R3 metadata == wire bytes
     R.rule("C03-R3", "the retained metadata holds get_serialized_body() of the very Intermediate that becomes the wire request, the same key id and nonce as the URI; both serialisations go through Intermediate::serialize_body of an unmodified body")
@@ -266,3 +272,39 @@ def _k(nd):
         parts.append(cx.bv.body.get("item") or cx.bv.id.split("::")[-2])
         cx = cx.parent
     return "<".join(parts)
+
+
+def _phi_set(v):
+    """(text before the first phi(, frozenset of its top-level alternatives, text after) — the order of merged alternatives
+    depends on the order of match arms, not on what is built."""
+    i = v.find("phi(")
+    if i < 0:
+        return (v, frozenset(), "")
+    depth = 0
+    j = i + 3
+    parts = []
+    cur = ""
+    inq = False
+    while j < len(v):
+        ch = v[j]
+        if ch == "'":
+            inq = not inq
+        if not inq:
+            if ch == "(":
+                depth += 1
+                if depth == 1:
+                    j += 1
+                    continue
+            elif ch == ")":
+                depth -= 1
+                if depth == 0:
+                    parts.append(cur)
+                    break
+            elif ch == "|" and depth == 1:
+                parts.append(cur)
+                cur = ""
+                j += 1
+                continue
+        cur += ch
+        j += 1
+    return (v[:i], frozenset(parts), v[j + 1:])
